@@ -71,6 +71,14 @@ Theorem c04_startup_link_events_irrelevant : forall U me pre k,
 Proof. intros U. exact (startup_tables_irrelevant U lost_broadcasts). Qed.
 Print Assumptions c04_startup_link_events_irrelevant.
 
+(* an establish lock region that runs while the controller is not executing
+   (execCtx == nil: the constructor returned but Execute has not stored its
+   handles yet, or it has exited) stores nothing and closes the link *)
+Theorem c04_est_while_not_executing_refused : forall U lb s p,
+  st_ready s = false -> fst (step_gen U lb s (Est p)) = close_only s p.
+Proof. intros U lb s p H. cbn [step_gen]. rewrite H. reflexivity. Qed.
+Print Assumptions c04_est_while_not_executing_refused.
+
 (* the self-dial rule holds from the not-yet-constructed state too, for every history *)
 Theorem c04_self_never_yielded_from_startup : forall U me h src dst q,
   remote_of U q = me -> ~ In q (yielded U lost_broadcasts false me h src dst).
